@@ -855,33 +855,21 @@ func (kmc *KeystoreManagerForPoC) NewKeystore(privPassphrase, seed []byte, remar
 		}
 	}
 
-	var acctBucketMeta db.BucketMeta
+	var addrManager *AddrManager
 	err := db.Update(kmc.db, func(dbTransaction db.DBTransaction) error {
-		var err error
 		// create hd key chain and init the bucket
-		acctBucketMeta, err = create(dbTransaction, kmc.ksMgrMeta, kmc.pubPassphrase, privPassphrase, seed, PoCUsage, remark, net, scryptConfig)
+		acctBucketMeta, err := create(dbTransaction, kmc.ksMgrMeta, kmc.pubPassphrase, privPassphrase, seed, PoCUsage, remark, net, scryptConfig)
 		if err != nil {
 			return err
 		}
-		return nil
-	})
-	if err != nil {
-		return "", err
-	}
-
-	var addrManager *AddrManager
-	err = db.View(kmc.db, func(dbTransaction db.ReadTransaction) error {
+		// load the new keystore while the transaction is open: nothing after the commit
+		// may fail on storage, or an error would be reported for a keystore that exists
 		amBucket := dbTransaction.FetchBucket(acctBucketMeta)
 		if amBucket == nil {
 			return ErrUnexpecteDBError
 		}
-
-		var err error
 		addrManager, err = loadAddrManager(amBucket, kmc.pubPassphrase, net)
-		if err != nil {
-			return err
-		}
-		return nil
+		return err
 	})
 	if err != nil {
 		return "", err
